@@ -11,6 +11,7 @@ from conda_content_trust import authentication as A, common as C, signing as S
 
 from vlib import gen_json as G, gen_metadata as GM, gen_repodata as GR, keys, ref_ed25519, ref_verify as RV
 from vlib.ref_canon import canon, jeq
+from vlib import cfgunit as _cfgunit
 from vlib.runner import Unit, Violation
 
 PROPERTY = "C11"
@@ -175,4 +176,5 @@ UNITS = [
          doc="sign_all_in_repodata: full expected-output differential, idempotence, client path, cross-artifact"),
     Unit("fixtures", check_fixture, enumerate=enum_fixtures, exhaustive=True, shards_quick=2,
          doc="the shipped repodata samples under three keys"),
+    _cfgunit.unit_under_config(PROPERTY, 'sign', exclude=()),
 ]
